@@ -40,6 +40,7 @@ type Harness struct {
 	ifconv    bool
 	needTier  int // run only when tier >= needTier
 	budgetS   int // wall-clock budget in seconds (0 = default for the tier)
+	fresh  bool // a new solver process and term table for every path: the SMT text of a path no longer depends on what its worker did before
 	jobs      int // worker cap (0 = no cap)
 	bounds, outside, assumes, stubNotes []string
 }
@@ -733,7 +734,7 @@ func (e *Engine) RunHarness(h *Harness, tier int, jobs int, pinned map[string]In
 				q.done()
 				w.paths++
 				// recycle the worker now and then: the term table and the solver's global definitions only grow
-				if len(w.ts.all) > 600000 || w.paths > 4000 || w.solver.dead {
+				if len(w.ts.all) > 600000 || w.paths > 4000 || w.solver.dead || h.fresh {
 					w.solver.Close()
 					if w.second != nil {
 						w.second.Close()
